@@ -1770,6 +1770,7 @@ func (b *Bitmap) unmarshalPilosaRoaring(data []byte) error {
 
 	// Read ops log until the end of the file.
 	buf := data[opsOffset:]
+	var checkedKeys map[uint64]struct{}
 	for {
 		// Exit when there are no more ops to parse.
 		if len(buf) == 0 {
@@ -1783,6 +1784,15 @@ func (b *Bitmap) unmarshalPilosaRoaring(data []byte) error {
 			return err
 		}
 
+		// The containers attached above are views of the file that nothing has
+		// looked into yet, and the kernels trust a container's cardinality and
+		// the order of its values. Check the ones this op is about to touch
+		// (once each): a corrupt container must fail the load with an error,
+		// not panic in a kernel.
+		if err := opr.checkTouchedContainers(b, &checkedKeys); err != nil {
+			return err
+		}
+
 		opr.apply(b)
 
 		// Increase the op count.
@@ -1793,6 +1803,56 @@ func (b *Bitmap) unmarshalPilosaRoaring(data []byte) error {
 		buf = buf[opr.size():]
 	}
 
+	return nil
+}
+
+// checkTouchedContainers verifies, for every container of b that applying op
+// will read or modify and that has not been verified before (checked), that
+// its contents match its header. Containers that earlier ops of the same log
+// created or rewrote are consistent by construction; checking them again is
+// harmless.
+func (op *op) checkTouchedContainers(b *Bitmap, checked *map[uint64]struct{}) error {
+	verify := func(key uint64) error {
+		if _, ok := (*checked)[key]; ok {
+			return nil
+		}
+		if *checked == nil {
+			*checked = make(map[uint64]struct{})
+		}
+		(*checked)[key] = struct{}{}
+		c := b.Containers.Get(key)
+		if c == nil || c.N() == 0 {
+			return nil
+		}
+		if !importedContainerIsConsistent(c.typ(), int(c.N()), int(c.len), c.pointer) {
+			return fmt.Errorf("container with key %d has contents that contradict its header", key)
+		}
+		return nil
+	}
+	switch op.typ {
+	case opTypeAdd, opTypeRemove:
+		return verify(highbits(op.value))
+	case opTypeAddBatch, opTypeRemoveBatch:
+		for _, v := range op.values {
+			if err := verify(highbits(v)); err != nil {
+				return err
+			}
+		}
+	case opTypeAddRoaring, opTypeRemoveRoaring:
+		itr, err := newRoaringIterator(op.roaring)
+		if err != nil {
+			return nil // the import will fail the same way and change nothing
+		}
+		for {
+			key, _, _, _, _, err := itr.Next()
+			if err != nil {
+				break
+			}
+			if err := verify(key); err != nil {
+				return err
+			}
+		}
+	}
 	return nil
 }
 
